@@ -50,6 +50,9 @@ type Program struct {
 	funcsOnce bool
 	flat      map[*Func]*Func
 	pobjs     map[*Func][]paramObj
+	// CanonNotes: unexported anchors that carry another name in the tree than the rules use, and were analysed under
+	// the canonical one (see anchors.go)
+	CanonNotes []string
 	// Opaque: helpers Flatten must keep as calls (set by the rules package)
 	Opaque func(*Func) bool
 	// OpaqueGeneral: helpers that may be inlined in the exact forms only, not in the general (labelled switch) form
@@ -59,6 +62,14 @@ type Program struct {
 // Load type-checks the library packages of the repository from source (their
 // dependencies come from export data built by the go command).
 func Load(repo string, overlay map[string][]byte) (*Program, error) {
+	p, err := loadRaw(repo, overlay)
+	if err != nil {
+		return nil, err
+	}
+	return Canonicalise(p, repo, overlay), nil
+}
+
+func loadRaw(repo string, overlay map[string][]byte) (*Program, error) {
 	// the go command is looked up through this process's PATH
 	if !strings.HasPrefix(os.Getenv("PATH"), GoBin+":") {
 		os.Setenv("PATH", GoBin+":"+os.Getenv("PATH"))
